@@ -197,6 +197,11 @@ def seams(chooser):
         if hasattr(di, k):
             saved_di[k] = getattr(di, k)
             setattr(di, k, v)
+    # a `random` module imported by the iteration module itself is a
+    # source of nondeterminism too
+    if hasattr(di, "random"):
+        saved_di["random"] = di.random
+        di.random = itertools_mc.FakeRandom()
     saved_it = {k: getattr(it, k)
                 for k in ("initial_random_state", "next_random_state",
                           "random")}
